@@ -59,6 +59,11 @@ def check(bdd, kind, rnd, n_bits, n_out, fails, tag):
     r2 = fn.collect_functions(d, extra)
     if r2 is not extra or set(r2) != set(d) | {'zz'}:
         fails.append(dict(name='collect_functions(functions, r) adds to the given table and returns it', backend=kind, position=tag))
+    empty = dict()
+    r3 = fn.collect_functions(d, empty)
+    if r3 is not empty or set(empty) != set(d):
+        fails.append(dict(name='collect_functions(functions, r) fills the caller\'s table r also when it is still empty, and returns it', backend=kind, position=tag,
+                          table_afterwards=sorted(empty)))
     relset = {tuple(p[b] for b in bits) for p in rel}
     for iv in itertools.product([False, True], repeat=len(ins)):
         env = dict(zip(ins, iv))
